@@ -113,7 +113,6 @@ partial def Schema.toJson : Schema → Json
   | .anyOf ss => Json.mkObj [("anyOf", Json.arr (ss.map Schema.toJson).toArray)]
   | .oneOf ss => Json.mkObj [("oneOf", Json.arr (ss.map Schema.toJson).toArray)]
   | .notS ss => Json.mkObj [("not", Json.arr (ss.map Schema.toJson).toArray)]
-  | .retyped s => (Schema.toJson s).setObjVal! "type" (Json.str "object")
   | .unsupported w => Json.mkObj [("unsupported", Json.str w)]
 
 /-! ### declarations on the wire (inverse of `Wire.declOfJson`, same keys as `harness/dump.py`) -/
@@ -210,7 +209,7 @@ def run (j : Json) : Except String Json := do
     [("decl", declToJson cls),
      ("defDecls", Json.arr (env.map fun (n, d) => Json.arr #[Json.str n, declToJson d]).toArray),
      ("back", Schema.toJson (toSchemaClass cls)),
-     ("defBacks", Json.arr (env.map fun (n, d) => Json.arr #[Json.str n, Schema.toJson (toSchemaClass d)]).toArray),
+     ("defBacks", Json.arr (env.map fun (n, d) => Json.arr #[Json.str n, Schema.toJson (toSchemaDef d)]).toArray),
      ("doc", match docLex with | some d => Json.str d | none => Json.null)]
   pure (Json.mkObj ([
     ("phase", Json.str phase),
@@ -220,7 +219,7 @@ def run (j : Json) : Except String Json := do
     ("sites", Json.arr (sites.map siteJson).toArray),
     ("unfaithful", strs (unfaithful.map (·.site))),
     ("issues", strs (topIssues s)),
-    ("defIssues", Json.arr (defs.map fun (n, d) => Json.arr #[Json.str n, strs (topIssues d)]).toArray),
+    ("defIssues", Json.arr (defs.map fun (n, d) => Json.arr #[Json.str n, strs (defIssues d)]).toArray),
     ("inFragment", Json.bool (inCodeFragment s && defs.all (fun (_, d) => inCodeFragment d))),
     ("reqBefore", match requiredBefore s with | some r => strs r | none => Json.null),
     ("reqAfter", match requiredAfter s with | some r => strs r | none => Json.null),
